@@ -12,6 +12,20 @@ from .cfgutil import dominators, expr_key, _strip_all
 from . import pp
 
 
+def wrap_int(v, ty):
+    """value of integer v converted to C type ty (LP64, char signed, wchar_t = int)"""
+    t = (ty or '').replace('const ', '').strip()
+    bits, signed = {'char': (8, True), 'signed char': (8, True), 'unsigned char': (8, False), 'short': (16, True),
+                    'unsigned short': (16, False), 'int': (32, True), 'unsigned int': (32, False), 'wchar_t': (32, True),
+                    'long': (64, True), 'unsigned long': (64, False), 'UriBool': (32, True), 'size_t': (64, False)}.get(t, (None, None))
+    if bits is None:
+        return v
+    v &= (1 << bits) - 1
+    if signed and v >= (1 << (bits - 1)):
+        v -= (1 << bits)
+    return v
+
+
 class Lin(object):
     __slots__ = ('t', 'c')
 
@@ -128,6 +142,10 @@ class SymExec(object):
         self.npaths = 0
         self.opaque_calls = {}
         self.on_call = None    # hook(i, state, args) -> value or None
+        self.on_load = None    # hook(se, state, base, offset Lin, expr) -> value or None
+        self.stop_blocks = set()
+        self.stops = []
+        self.no_summarise = False
         self.pure_calls = set()
         self.merge_vars = None     # list of lvalue keys widened at join blocks (None = no merging)
         self.invariants = None     # fn(state) -> list of Lin that must be <= 0 (re-established after widening)
@@ -325,6 +343,8 @@ class SymExec(object):
                 key = expr_key(e.c[0])
                 if key in st.env:
                     return st.env[key]
+                if self.on_load is not None and (e.c[0].k == 'index' or (e.c[0].k == 'un' and e.c[0].v == '*')):
+                    return self.ev(e.c[0], st)
                 # unknown memory: opaque by text; pointers become bases
                 txt = self.text_of(e.c[0], st)
                 if '*' in (e.ty or ''):
@@ -335,6 +355,8 @@ class SymExec(object):
                     return Ptr('"%s"' % e.c[0].v)
                 return Ptr('&' + self.text_of(e.c[0], st))
             v = self.ev(e.c[0], st)
+            if isinstance(v, Lin) and v.is_const() and e.v in ('IntegralCast',):
+                return Lin.const(wrap_int(v.c, (e.x or {}).get('dty') or e.ty))
             return v
         if k == 'ref':
             if e.v in st.env:
@@ -396,10 +418,23 @@ class SymExec(object):
             if e.v == '&':
                 return Ptr('&' + self.text_of(e.c[0], st))
             if e.v == '*':
+                if self.on_load is not None:
+                    p = self.ev(e.c[0], st)
+                    if isinstance(p, Ptr):
+                        r = self.on_load(self, st, p.base, p.off, e)
+                        if r is not None:
+                            return r
                 key = expr_key(e)
                 if key in st.env:
                     return st.env[key]
             return self.opaque(self.text_of(e, st))
+        if k == 'index' and self.on_load is not None:
+            p = self.ev(e.c[0], st)
+            idx = self.ev(e.c[1], st)
+            if isinstance(p, Ptr) and isinstance(idx, Lin):
+                r = self.on_load(self, st, p.base, p.off + idx, e)
+                if r is not None:
+                    return r
         if k in ('member', 'index'):
             key = expr_key(e)
             if key in st.env:
@@ -448,6 +483,8 @@ class SymExec(object):
             a = self.ev(c.c[0], st)
             b = self.ev(c.c[1], st)
             op = c.v
+            if isinstance(a, Ptr) and isinstance(b, Ptr) and a.base == b.base and op in ('<', '>', '<=', '>='):
+                a, b = a.off, b.off
             if isinstance(a, Ptr) or isinstance(b, Ptr):
                 if op in ('==', '!=') and isinstance(a, Ptr) and isinstance(b, Ptr):
                     if a.base == b.base:
@@ -575,12 +612,17 @@ class SymExec(object):
             st.env[i.dst.v] = res
 
     # ---- driver
-    def run(self, st0):
+    def run(self, st0, start=None):
         f = self.f
-        work = [(f.entry, st0)]
+        work = [(start or f.entry, st0)]
+        first = True
         while work:
             b, st = work.pop()
             self.npaths += 1
+            if not first and b.id in self.stop_blocks:
+                self.stops.append((b.id, st))
+                continue
+            first = False
             if self.npaths > self.MAX_PATHS:
                 raise AnalysisBroken('symbolic execution of %s exceeds %d block visits' % (f.name, self.MAX_PATHS))
             if self.merge_vars is not None and len(b.preds) >= 2 and b.id not in self.loops \
@@ -606,7 +648,7 @@ class SymExec(object):
                     st = self._merge_at(b, st)
                     if st is None:
                         continue
-                elif n == 0 and not self._concrete_loop(b, st):
+                elif n == 0 and not self.no_summarise and not self._concrete_loop(b, st):
                     # summarise: fresh symbols for everything assigned in the loop
                     syms = {}
                     for k in L['assigned']:
